@@ -1,1 +1,4 @@
+import Driver.CacheKey
+import Driver.Proxy
 import Driver.Slice
+import Driver.Subset
